@@ -118,6 +118,25 @@ Theorem C05_mirror_stable : forall tr tr',
 Proof. exact mirror_stable_thm. Qed.
 Print Assumptions C05_mirror_stable.
 
+(* mirror_header_any_chunking: on the wire the output of a results stream follows one header
+   line, and a byte stream may deliver both in reads of any sizes — the header split at any position,
+   its end in the same read as the first output bytes.  For EVERY such chunking the mirror
+   (line read through the buffered reader, then copy from that same reader) takes exactly the header
+   and appends exactly the bytes that follow it. *)
+Theorem C05_mirror_header_any_chunking : forall reads hdr body,
+  no_nl hdr = true -> concat reads = hdr ++ 10 :: body ->
+  client_mirror reads = Some (hdr ++ [10], body).
+Proof. exact mirror_header_any_chunking_thm. Qed.
+Print Assumptions C05_mirror_header_any_chunking.
+
+(* ... whereas copying from the raw connection drops what was buffered behind the header *)
+Theorem C05_mirror_raw_copy_refuted :
+  let reads := [[83; 116]; [114; 10; 1; 2]; [3]] in
+  client_mirror reads = Some ([83; 116; 114; 10], [1; 2; 3]) /\
+  client_mirror_raw reads = Some ([83; 116; 114; 10], [3]).
+Proof. exact mirror_raw_copy_refuted_thm. Qed.
+Print Assumptions C05_mirror_raw_copy_refuted.
+
 (* the hypotheses are satisfiable by non-trivial histories: a producer with running ticks read
    from offset 1 with reads of several sizes; a transfer cut twice that then converges *)
 Example C05_nonvacuous_results :
